@@ -205,6 +205,108 @@ Fixpoint force (o : outcome) : outcome * bool :=
   | _ => (o, false)
   end.
 
+(* ExecuteField for one response key of one object value; parameterised by the recursive calls *)
+Definition exec_field (fuel' : nat)
+           (cmp : tyref -> list N -> list occ -> path -> path -> rv -> st -> xres presp)
+           (dth : presp -> st -> xres presp)
+           (E : env) (obj : name) (src : rv) (k : name) (occs : list occ) (p : path) (s : st)
+  : xres (option presp) :=
+  let fname := match occs with o :: _ => oc_name o | [] => "" end in
+  let fargs := match occs with o :: _ => oc_args o | [] => [] end in
+  let nodes := map oc_id occs in
+  let fp := p ++ [PKey k] in
+  if String.eqb fname "__typename" then XOk (Some (QLeaf (JStr obj))) s
+  else match find_field fname (object_fields (en_S E) obj) with
+  | None => XOk None s
+  | Some fd =>
+    match get_argument_values fuel' (en_S E) (f_args fd) fargs (Some (en_vars E)) with
+    | None => XFuel
+    | Some args =>
+      let s1 := add_call {| c_path := fp; c_parent := obj; c_field := fname; c_source := src;
+                            c_args := args; c_nodes := nodes |} s in
+      let '(o, thunked) :=
+          match en_or E fp with
+          | Some o => force o
+          | None => (OVal RNull, false)
+          end in
+      let s2 := match en_or E fp with Some _ => s1 | None => add_missing fp s1 end in
+      let c0 := match o with
+                | OVal v => cmp (f_type fd) nodes occs fp fp v s2
+                | _ => XRaise {| e_path := fp; e_nodes := nodes |} s2
+                end in
+      let r1 :=
+          if thunked && negb (is_nonnull (f_type fd)) then
+            (* deferred: completed by the dethunk pass, if it is still part of the response then *)
+            XOk (QThunk (f_type fd) nodes occs fp o) s2
+          else
+            match c0 with
+            | XRaise e s' => if thunked then XRaise e (set_escape s') else c0
+            | _ => c0
+            end in
+      match catch_at (f_type fd) r1 with
+      | XOk y s' =>
+        if en_serial E && match p with [] => true | _ => false end
+        then match dth y s' with
+             | XOk y' s'' => XOk (Some y') s''
+             | XRaise e s'' => XRaise e s''
+             | XFuel => XFuel
+             end
+        else XOk (Some y) s'
+      | XRaise e s' => XRaise e s'
+      | XFuel => XFuel
+      end
+    end
+  end.
+
+(* loops of the executor, parameterised by the recursive call (so that the mutual
+   definition below stays small and the loops can be reasoned about once) *)
+Fixpoint items_loop (cmp : N -> rv -> st -> xres presp) (l : list rv) (i : N) (s : st) : xres (list presp) :=
+  match l with
+  | [] => XOk [] s
+  | x :: r =>
+    match cmp i x s with
+    | XOk y s' =>
+      match items_loop cmp r (i + 1)%N s' with
+      | XOk ys s'' => XOk (y :: ys) s''
+      | XRaise e s'' => XRaise e s''
+      | XFuel => XFuel
+      end
+    | XRaise e s' => XRaise e s'
+    | XFuel => XFuel
+    end
+  end.
+
+Fixpoint dethunk_list (f : presp -> st -> xres presp) (l : list presp) (s : st) : xres (list presp) :=
+  match l with
+  | [] => XOk [] s
+  | x :: r =>
+    match f x s with
+    | XOk y s' => match dethunk_list f r s' with
+                  | XOk ys s'' => XOk (y :: ys) s''
+                  | XRaise e s'' => XRaise e s''
+                  | XFuel => XFuel
+                  end
+    | XRaise e s' => XRaise e s'
+    | XFuel => XFuel
+    end
+  end.
+
+Fixpoint dethunk_fields (f : presp -> st -> xres presp) (l : list (name * presp)) (s : st)
+  : xres (list (name * presp)) :=
+  match l with
+  | [] => XOk [] s
+  | (k, x) :: r =>
+    match f x s with
+    | XOk y s' => match dethunk_fields f r s' with
+                  | XOk ys s'' => XOk ((k, y) :: ys) s''
+                  | XRaise e s'' => XRaise e s''
+                  | XFuel => XFuel
+                  end
+    | XRaise e s' => XRaise e s'
+    | XFuel => XFuel
+    end
+  end.
+
 Fixpoint complete (fuel : nat) (E : env) (t : tyref) (nodes : list N) (occs : list occ)
          (fpath p : path) (v : rv) (s : st) {struct fuel} : xres presp :=
   match fuel with
@@ -223,22 +325,7 @@ Fixpoint complete (fuel : nat) (E : env) (t : tyref) (nodes : list N) (occs : li
       | TList t' =>
         match v with
         | RList l =>
-          match
-            (fix items (l : list rv) (i : N) (s : st) : xres (list presp) :=
-               match l with
-               | [] => XOk [] s
-               | x :: r =>
-                 match catch_at t' (complete fuel' E t' nodes occs fpath (p ++ [PIdx i]) x s) with
-                 | XOk y s' =>
-                   match items r (i + 1)%N s' with
-                   | XOk ys s'' => XOk (y :: ys) s''
-                   | XRaise e s'' => XRaise e s''
-                   | XFuel => XFuel
-                   end
-                 | XRaise e s' => XRaise e s'
-                 | XFuel => XFuel
-                 end
-               end) l 0%N s
+          match items_loop (fun i x s0 => catch_at t' (complete fuel' E t' nodes occs fpath (p ++ [PIdx i]) x s0)) l 0%N s
           with
           | XOk ys s' => XOk (QList ys) s'
           | XRaise e s' => XRaise e s'
@@ -291,53 +378,7 @@ with exec_groups (fuel : nat) (E : env) (obj : name) (src : rv) (g : groups) (p 
     match g with
     | [] => XOk [] s
     | (k, occs) :: rest =>
-      let fname := match occs with o :: _ => oc_name o | [] => "" end in
-      let fargs := match occs with o :: _ => oc_args o | [] => [] end in
-      let nodes := map oc_id occs in
-      let fp := p ++ [PKey k] in
-      let this : xres (option presp) :=
-          if String.eqb fname "__typename" then XOk (Some (QLeaf (JStr obj))) s
-          else match find_field fname (object_fields (en_S E) obj) with
-          | None => XOk None s
-          | Some fd =>
-            match get_argument_values fuel' (en_S E) (f_args fd) fargs (Some (en_vars E)) with
-            | None => XFuel
-            | Some args =>
-              let s1 := add_call {| c_path := fp; c_parent := obj; c_field := fname; c_source := src;
-                                    c_args := args; c_nodes := nodes |} s in
-              let '(o, thunked) :=
-                  match en_or E fp with
-                  | Some o => force o
-                  | None => (OVal RNull, false)
-                  end in
-              let s2 := match en_or E fp with Some _ => s1 | None => add_missing fp s1 end in
-              let r :=
-                  if thunked && negb (is_nonnull (f_type fd)) then
-                    (* deferred: completed by the dethunk pass, if it is still part of the response then *)
-                    XOk (QThunk (f_type fd) nodes occs fp o) s2
-                  else
-                    let r := match o with
-                             | OVal v => complete fuel' E (f_type fd) nodes occs fp fp v s2
-                             | _ => XRaise {| e_path := fp; e_nodes := nodes |} s2
-                             end in
-                    match r with
-                    | XRaise e s' => if thunked then XRaise e (set_escape s') else r
-                    | _ => r
-                    end in
-              let r := match catch_at (f_type fd) r with
-                       | XOk y s' =>
-                         if en_serial E && match p with [] => true | _ => false end
-                         then dethunk fuel' E y s' else XOk y s'
-                       | r' => r'
-                       end in
-              match r with
-              | XOk y s' => XOk (Some y) s'
-              | XRaise e s' => XRaise e s'
-              | XFuel => XFuel
-              end
-            end
-          end in
-      match this with
+      match exec_field fuel' (complete fuel' E) (dethunk fuel' E) E obj src k occs p s with
       | XOk y s' =>
         match exec_groups fuel' E obj src rest p s' with
         | XOk ys s'' => XOk (match y with Some y => (k, y) :: ys | None => ys end) s''
@@ -360,42 +401,14 @@ with dethunk (fuel : nat) (E : env) (q : presp) (s : st) {struct fuel} : xres pr
     | QNull => XOk QNull s
     | QLeaf v => XOk (QLeaf v) s
     | QList l =>
-      match
-        (fix go (l : list presp) (s : st) : xres (list presp) :=
-           match l with
-           | [] => XOk [] s
-           | x :: r =>
-             match dethunk fuel' E x s with
-             | XOk y s' => match go r s' with
-                           | XOk ys s'' => XOk (y :: ys) s''
-                           | XRaise e s'' => XRaise e s''
-                           | XFuel => XFuel
-                           end
-             | XRaise e s' => XRaise e s'
-             | XFuel => XFuel
-             end
-           end) l s
+      match dethunk_list (dethunk fuel' E) l s
       with
       | XOk ys s' => XOk (QList ys) s'
       | XRaise e s' => XRaise e s'
       | XFuel => XFuel
       end
     | QObj l =>
-      match
-        (fix go (l : list (name * presp)) (s : st) : xres (list (name * presp)) :=
-           match l with
-           | [] => XOk [] s
-           | (k, x) :: r =>
-             match dethunk fuel' E x s with
-             | XOk y s' => match go r s' with
-                           | XOk ys s'' => XOk ((k, y) :: ys) s''
-                           | XRaise e s'' => XRaise e s''
-                           | XFuel => XFuel
-                           end
-             | XRaise e s' => XRaise e s'
-             | XFuel => XFuel
-             end
-           end) l s
+      match dethunk_fields (dethunk fuel' E) l s
       with
       | XOk ys s' => XOk (QObj ys) s'
       | XRaise e s' => XRaise e s'
